@@ -1,5 +1,6 @@
 SPEC = dict(
     pkg="engine",
+    hooks=["engine", "lib/fileops"],
     test="TestVerifC02",
     level="exploration",
     workers=16,
